@@ -157,8 +157,8 @@ namespace stdex
         constexpr void reserve(size_type) const {};
         constexpr const T& operator[](size_type idx) const { return the_data[idx]; }
         constexpr T& operator[](size_type idx) { return the_data[idx]; }
-        constexpr void push_back(const T& v) { the_data[current_size++] = v; }
-        constexpr void emplace_back(T&& v) { the_data[current_size++] = std::move(v); }
+        constexpr void push_back(const T& v) { check_capacity(); the_data[current_size++] = v; }
+        constexpr void emplace_back(T&& v) { check_capacity(); the_data[current_size++] = std::move(v); }
         constexpr const T& front() const { return the_data[0]; }
         constexpr T& front() { return the_data[0]; }
         constexpr T& back() { return the_data[current_size - 1]; }
@@ -188,6 +188,12 @@ namespace stdex
         }
 
     private:
+        constexpr void check_capacity() const
+        {
+            if (current_size >= N)
+                throw std::runtime_error("Capacity exceeded");
+        }
+
         T the_data[N];
         size_type current_size;
     };
